@@ -231,24 +231,48 @@ class _InlineExecutor:
         pass
 
 
+_VALIDATED = {}
+
+
+def _novalidate(schema, document, variables=None):
+    return []
+
+
 def execute(schema, query, config="blocking", disable=False, root=None):
-    """-> ("ok", response dict) | ("exc", class name)"""
+    """-> ("ok", response dict) | ("exc", class name) | ("inconclusive", why).
+    The document is validated by the library the first time a (schema, query) pair is executed; repeated
+    executions of the same pair (other configurations / flags) skip the validation stage (validation does not
+    depend on them and dominates the run time)."""
+    key = (id(schema), query)
+    if key in _VALIDATED and _VALIDATED[key] is schema:
+        kw = {"validators": [_novalidate]}
+    else:
+        kw = {}
+    st, r = _execute(schema, query, config, disable, root, kw)
+    if st == "ok" and not kw:
+        if len(_VALIDATED) > 4000:
+            _VALIDATED.clear()
+        _VALIDATED[key] = schema
+    return st, r
+
+
+def _execute(schema, query, config, disable, root, kw):
     from py_gql._graphql import process_graphql_query
     from py_gql.execution import Executor
     from py_gql.execution.blocking_executor import BlockingExecutor
     from py_gql.execution.runtime import AsyncIORuntime, BlockingRuntime, ThreadPoolRuntime
     try:
         if config == "blocking":
-            r = process_graphql_query(schema, query, root=root, disable_introspection=disable,
+            r = process_graphql_query(schema, query, root=root, disable_introspection=disable, **kw,
                                       executor_cls=BlockingExecutor, runtime=BlockingRuntime())
         elif config == "generic":
-            r = process_graphql_query(schema, query, root=root, disable_introspection=disable,
+            r = process_graphql_query(schema, query, root=root, disable_introspection=disable, **kw,
                                       executor_cls=Executor, runtime=BlockingRuntime())
         elif config == "asyncio":
             loop = asyncio.new_event_loop()
             try:
                 r = loop.run_until_complete(process_graphql_query(
-                    schema, query, root=root, disable_introspection=disable, executor_cls=Executor,
+                    schema, query, root=root, disable_introspection=disable, **kw, executor_cls=Executor,
                     runtime=AsyncIORuntime(loop=loop, execute_blocking_functions_in_thread=False)))
             finally:
                 loop.close()
@@ -256,7 +280,7 @@ def execute(schema, query, config="blocking", disable=False, root=None):
             rt = ThreadPoolRuntime(max_workers=1)
             rt._inner.shutdown(wait=False)
             rt._inner = _InlineExecutor()
-            r = process_graphql_query(schema, query, root=root, disable_introspection=disable,
+            r = process_graphql_query(schema, query, root=root, disable_introspection=disable, **kw,
                                       executor_cls=Executor, runtime=rt).result(timeout=30)
         elif config == "threadpool-real":
             import concurrent.futures
@@ -265,7 +289,7 @@ def execute(schema, query, config="blocking", disable=False, root=None):
             if not _POOL:
                 _POOL.append(ThreadPoolRuntime(max_workers=2))
             try:
-                r = process_graphql_query(schema, query, root=root, disable_introspection=disable,
+                r = process_graphql_query(schema, query, root=root, disable_introspection=disable, **kw,
                                           executor_cls=Executor, runtime=_POOL[0]).result(timeout=15)
             except concurrent.futures.TimeoutError:
                 return "inconclusive", "timeout (gather_futures thread race, see C08)"
